@@ -20,7 +20,9 @@ Arguments OOB {A} site.
 Definition bind {A B} (m : res A) (f : A -> res B) : res B :=
   match m with Ok a => f a | Null => Null | OOB s => OOB s end.
 Notation "'do' x <- m ; f" := (bind m (fun x => f))
-  (at level 200, x pattern, m at level 100, f at level 200, right associativity).
+  (at level 200, x name, m at level 100, f at level 200, right associativity).
+Notation "'do' ' p <- m ; f" := (bind m (fun ' p => f))
+  (at level 200, p strict pattern, m at level 100, f at level 200, right associativity).
 
 Definition data := list (list Z).
 
@@ -97,8 +99,8 @@ Definition base32hex_decode_table : list Z :=
     3; 4; 5; 6; 7; 8; 9;-1;-1;-1;-2;-1;-1;-1;10;11;12;
    13;14;15;16;17;18;19;20;21;22;23;24;25;26;27;28;29;
    30;31].
-(* transform.c:99-100 takes sizeof of the ENCODE table: a string literal, so 32 characters + NUL *)
-Definition base32hex_decode_table_size : Z := Zlength base32hex_encode_table + 1.
+
+Definition base32hex_decode_table_size : Z := Zlength base32hex_decode_table.
 
 Definition base64_encode_table : list Z :=
   [65;66;67;68;69;70;71;72;73;74;75;76;77;78;79;80;81;82;83;84;85;86;87;88;89;90;
@@ -153,7 +155,7 @@ Definition tb_put16 (site : Z) (le : bool) (b : tbuf) (v : Z) : res tbuf :=
   do b1 <- tb_put site b (if le then lo else hi);
   tb_put site b1 (if le then hi else lo).
 
-(* _dispatch_transform_swap_to_host(*(uint16_t * )p, byteOrder) for the two bytes at p *)
+(* _dispatch_transform_swap_to_host applied to the uint16_t at p (bytes b0 b1), little-endian host *)
 Definition get16 (le : bool) (b0 b1 : Z) : Z := if le then b0 + 256 * b1 else b0 * 256 + b1.
 
 (* ---------------------------------------------------------------- UTF-8 helpers (transform.c:233-288) *)
@@ -203,6 +205,7 @@ Fixpoint to16_loop (d : data) (le : bool) (offset : Z) (r : list Z) (s0 size : Z
     if i <? size then
       do c <- rdo 333 r (s0 + i);
       let byte_size := utf8_length c in
+      let first := u64 (offset + i) =? 0 in
       if byte_size =? 0 then Null
       else
         do '(wch, i, skip) <-
@@ -218,9 +221,9 @@ Fixpoint to16_loop (d : data) (le : bool) (offset : Z) (r : list Z) (s0 size : Z
              Ok (wch, i + byte_size, skip));
         let next := (size - i) * 2 in
         if SIZE_MAX <? next then Null
-        else if (wch =? 65279) && (u64 (offset + i) =? 3) then
+        else if (wch =? 65279) && first then
           to16_loop d le offset r s0 size f i skip b
-        else if (55296 <=? wch) && (wch <? 57343) then Null
+        else if (55296 <=? wch) && (wch <=? 57343) then Null
         else if 65536 <=? wch then
           do b <- buffer_new b 4 next;
           let w := u32 (wch - 65536) in
@@ -244,7 +247,8 @@ Definition to16_region (d : data) (le : bool) (st : Z * tbuf) (offset : Z) (r : 
            else Ok b);
   if size <=? skip then Ok (u64 (skip - size), b)
   else
-    let '(s0, size, skip) := if 0 <? skip then (skip, size - skip, 0) else (0, size, skip) in
+    let '(s0, size, offset, skip) :=
+      if 0 <? skip then (skip, size - skip, u64 (offset + skip), 0) else (0, size, offset, skip) in
     do '(skip, b) <- to16_loop d le offset r s0 size (Z.to_nat size) 0 skip b;
     do b <- buffer_new b 0 0;
     Ok (skip, b).
@@ -257,7 +261,7 @@ Fixpoint apply_regions {S : Type} (f : S -> Z -> list Z -> res S) (rs : data) (o
   end.
 
 Definition to_utf16 (le : bool) (d : data) : res data :=
-  do '(_, b) <- apply_regions (to16_region d le) d 0 (0, tbuf_init);
+  do '(sk, b) <- apply_regions (to16_region d le) d 0 (0, tbuf_init);
   Ok (tb_data b).
 
 (* ---------------------------------------------------------------- _dispatch_transform_from_utf16 (402-544) *)
@@ -300,9 +304,7 @@ Fixpoint from16_loop (d : data) (le : bool) (offset : Z) (r : list Z) (s0 size m
            match sub_map d (u64 (offset + i * 2)) 2 with
            | None => Null
            | Some m =>
-             (* (uint16_t)*(uint64_t * )p : an 8-byte load *)
              do b0 <- rdo 455 m 0; do b1 <- rdo 455 m 1;
-             do _ <- rdo 455 m 7;
              Ok (get16 le b0 b1, u64 (skip + 1))
            end
          else do ch <- src16 460 le r s0 i; Ok (ch, skip));
@@ -315,12 +317,12 @@ Fixpoint from16_loop (d : data) (le : bool) (offset : Z) (r : list Z) (s0 size m
              let wch := u32 (Z.shiftl (ch - 55296) 10) in
              let i := i + 1 in
              do '(ch, skip) <-
-               (if max <=? i then
+               (if size / 2 <=? i then
                   match sub_map d (u64 (offset + i * 2)) 2 with
                   | None => Null
                   | Some m =>
                     do b0 <- rdo 482 m 0; do b1 <- rdo 482 m 1;
-                    Ok (get16 le b0 b1, u64 (skip + 2))
+                    Ok (get16 le b0 b1, u64 (i * 2 + 2 - size))
                   end
                 else do ch <- src16 487 le r s0 i; Ok (ch, skip));
              if negb ((56320 <=? ch) && (ch <=? 57343)) then Null
@@ -341,7 +343,8 @@ Definition from16_region (d : data) (le : bool) (st : Z * tbuf) (offset : Z) (r 
   do b <- (if offset =? 0 then buffer_new b (howmany size 3 * 2) 0 else Ok b);
   if size <=? skip then Ok (u64 (skip - size), b)
   else
-    let '(s0, size, skip) := if 0 <? skip then (skip, size - skip, 0) else (0, size, skip) in
+    let '(s0, size, offset, skip) :=
+      if 0 <? skip then (skip, size - skip, u64 (offset + skip), 0) else (0, size, offset, skip) in
     let max := size / 2 in
     let max := if negb (size mod 2 =? 0) then max + 1 else max in
     do '(skip, b) <- from16_loop d le offset r s0 size max (Z.to_nat max) 0 skip b;
@@ -349,7 +352,7 @@ Definition from16_region (d : data) (le : bool) (st : Z * tbuf) (offset : Z) (r 
     Ok (skip, b).
 
 Definition from_utf16 (le : bool) (d : data) : res data :=
-  do '(_, b) <- apply_regions (from16_region d le) d 0 (0, tbuf_init);
+  do '(sk, b) <- apply_regions (from16_region d le) d 0 (0, tbuf_init);
   Ok (tb_data b).
 
 (* ---------------------------------------------------------------- _dispatch_transform_to_utf8_without_bom (570-588) *)
@@ -371,10 +374,10 @@ Definition to_utf8_without_bom (d : data) : res data :=
 (* block variables x, count, pad *)
 Definition dec_st := (Z * Z * Z)%type.
 
-Definition b32d_body (table : list Z) (table_size : Z) (cap : Z) (r : list Z) (i : Z) (s : dec_st * obuf)
+(* the loop body after `bytes[i]` has been read into c *)
+Definition b32d_char (table : list Z) (table_size : Z) (cap : Z) (c : Z) (s : dec_st * obuf)
     : res (dec_st * obuf) :=
   let '((x, count, pad), o) := s in
-  do c <- rdo 614 r i;
   if is_ws c then Ok s
   else
     let index := c in
@@ -392,8 +395,14 @@ Definition b32d_body (table : list Z) (table_size : Z) (cap : Z) (r : list Z) (i
           do o <- wr 637 cap o (Z.land (Z.shiftr x 16) 255);
           do o <- wr 638 cap o (Z.land (Z.shiftr x 8) 255);
           do o <- wr 639 cap o (Z.land x 255);
-          Ok ((x, count, pad), o)
+          (* switch (pad): ptr -= 1 | 2 | 3 | 4; pad = 0 *)
+          let k := if pad =? 1 then 1 else if pad =? 3 then 2 else if pad =? 4 then 3 else if pad =? 6 then 4 else 0 in
+          Ok ((x, count, 0), (fst o - k, skipn (Z.to_nat k) (snd o)))
         else Ok ((x, count, pad), o).
+
+Definition b32d_body (table : list Z) (table_size : Z) (cap : Z) (r : list Z) (i : Z) (s : dec_st * obuf)
+    : res (dec_st * obuf) :=
+  do c <- rdo 614 r i; b32d_char table table_size cap c s.
 
 Definition b32d_region (table : list Z) (table_size : Z) (st : dec_st * data) (offset : Z) (r : list Z)
     : res (dec_st * data) :=
@@ -401,19 +410,13 @@ Definition b32d_region (table : list Z) (table_size : Z) (st : dec_st * data) (o
   let size := Zlength r in
   let dest_size := howmany size 8 * 5 in
   do '((x, count, pad), (n, out)) <- iter (Z.to_nat size) 0 (b32d_body table table_size dest_size r) (s, (0, []));
-  let final := n in
-  let final :=
-    if pad =? 1 then u64 (final - 1)
-    else if pad =? 3 then u64 (final - 2)
-    else if pad =? 4 then u64 (final - 3)
-    else if pad =? 6 then u64 (final - 4)
-    else final in
+  let final := u64 n in
   (* dispatch_data_create(dest, final, ...): the object claims final bytes of a dest_size-byte buffer *)
-  if dest_size <? final then OOB 659
+  if dest_size <? final then OOB 662
   else Ok ((x, count, pad), data_concat rv (data_create (firstn (Z.to_nat final) (rev out)))).
 
 Definition from_base32_with_table (table : list Z) (table_size : Z) (d : data) : res data :=
-  do '(_, rv) <- apply_regions (b32d_region table table_size) d 0 ((0, 0, 0), []);
+  do '(dst, rv) <- apply_regions (b32d_region table table_size) d 0 ((0, 0, 0), []);
   Ok rv.
 
 (* ---------------------------------------------------------------- base32 encode (678-807) *)
@@ -430,10 +433,9 @@ Definition get_last (site : Z) (d : data) (r : list Z) (offset i : Z) : res Z :=
 Definition tput (site : Z) (table : list Z) (cap : Z) (o : obuf) (k : Z) : res obuf :=
   do c <- rdo site table k; wr site cap o c.
 
-Definition b32e_body (d : data) (table : list Z) (cap : Z) (r : list Z) (offset : Z) (i : Z) (s : Z * obuf)
+Definition b32e_char (d : data) (table : list Z) (cap : Z) (r : list Z) (offset : Z) (i curr : Z) (s : Z * obuf)
     : res (Z * obuf) :=
   let '(count, o) := s in
-  do curr <- rdo 712 r i;
   let ph := count mod 5 in
   do last <- (if ph =? 0 then Ok 0 else get_last 722 d r offset i);
   do o <-
@@ -449,6 +451,10 @@ Definition b32e_body (d : data) (table : list Z) (cap : Z) (r : list Z) (offset 
        do o <- tput 750 table cap o (Z.land (Z.lor (Z.shiftl last 3) (Z.shiftr curr 5)) 31);
        tput 751 table cap o (Z.land curr 31));
   Ok (u64 (count + 1), o).
+
+Definition b32e_body (d : data) (table : list Z) (cap : Z) (r : list Z) (offset : Z) (i : Z) (s : Z * obuf)
+    : res (Z * obuf) :=
+  do curr <- rdo 712 r i; b32e_char d table cap r offset i curr s.
 
 Fixpoint wr_pad (site cap : Z) (n : nat) (o : obuf) : res obuf :=
   match n with O => Ok o | S n' => do o <- wr site cap o PAD; wr_pad site cap n' o end.
@@ -467,7 +473,7 @@ Definition b32e_region (d : data) (table : list Z) (total cap : Z) (st : Z * obu
                  else if ph =? 2 then Z.land (Z.shiftl lastb 4) 16
                  else if ph =? 3 then Z.land (Z.shiftl lastb 1) 30
                  else Z.land (Z.shiftl lastb 3) 24);
-      do o <- wr_pad 782 cap (if ph =? 1 then 6 else if ph =? 2 then 4 else if ph =? 3 then 3 else 1)%nat o;
+      do o <- wr_pad 782 cap (if ph =? 1 then 6%nat else if ph =? 2 then 4%nat else if ph =? 3 then 3%nat else 1%nat) o;
       Ok (count, o)
   else Ok (count, o).
 
@@ -477,15 +483,14 @@ Definition to_base32_with_table (table : list Z) (d : data) : res data :=
   if SIZE_MAX / 8 <? dest_size then Null
   else
     let dest_size := dest_size * 8 in
-    do '(_, (n, out)) <- apply_regions (b32e_region d table total dest_size) d 0 (0, (0, []));
+    do '(cnt, (n, out)) <- apply_regions (b32e_region d table total dest_size) d 0 (0, (0, []));
     (* dispatch_data_create(dest, dest_size): every byte of dest must have been written *)
     if n =? dest_size then Ok (data_create (rev out)) else OOB 805.
 
 (* ---------------------------------------------------------------- base64 decode (839-912) *)
 
-Definition b64d_body (cap : Z) (r : list Z) (i : Z) (s : dec_st * obuf) : res (dec_st * obuf) :=
+Definition b64d_char (cap : Z) (c : Z) (s : dec_st * obuf) : res (dec_st * obuf) :=
   let '((x, count, pad), o) := s in
-  do c <- rdo 861 r i;
   if is_ws c then Ok s
   else
     let index := c in
@@ -498,31 +503,35 @@ Definition b64d_body (cap : Z) (r : list Z) (i : Z) (s : dec_st * obuf) : res (d
         let '(value, pad) := if v =? -2 then (0, u64 (pad + 1)) else (v, pad) in
         let x := u64 (u64 (Z.shiftl x 6) + u64 value) in
         if Z.land count 3 =? 0 then
-          do o <- wr 883 cap o (Z.land (Z.shiftr x 16) 255);
-          do o <- wr 884 cap o (Z.land (Z.shiftr x 8) 255);
-          do o <- wr 885 cap o (Z.land x 255);
-          Ok ((x, count, pad), o)
+          if 2 <? pad then Null
+          else
+            do o <- wr 887 cap o (Z.land (Z.shiftr x 16) 255);
+            do o <- wr 888 cap o (Z.land (Z.shiftr x 8) 255);
+            do o <- wr 889 cap o (Z.land x 255);
+            (* ptr -= pad; pad = 0 *)
+            Ok ((x, count, 0), (fst o - pad, skipn (Z.to_nat pad) (snd o)))
         else Ok ((x, count, pad), o).
+
+Definition b64d_body (cap : Z) (r : list Z) (i : Z) (s : dec_st * obuf) : res (dec_st * obuf) :=
+  do c <- rdo 861 r i; b64d_char cap c s.
 
 Definition b64d_region (st : dec_st * data) (offset : Z) (r : list Z) : res (dec_st * data) :=
   let '(s, rv) := st in
   let size := Zlength r in
   let dest_size := howmany size 4 * 3 in
   do '((x, count, pad), (n, out)) <- iter (Z.to_nat size) 0 (b64d_body dest_size r) (s, (0, []));
-  let final := n in
-  let final := if 0 <? pad then u64 (final - pad) else final in
-  if dest_size <? final then OOB 895
+  let final := u64 n in
+  if dest_size <? final then OOB 898
   else Ok ((x, count, pad), data_concat rv (data_create (firstn (Z.to_nat final) (rev out)))).
 
 Definition from_base64 (d : data) : res data :=
-  do '(_, rv) <- apply_regions b64d_region d 0 ((0, 0, 0), []);
+  do '(dst, rv) <- apply_regions b64d_region d 0 ((0, 0, 0), []);
   Ok rv.
 
 (* ---------------------------------------------------------------- base64 encode (914-1006) *)
 
-Definition b64e_body (d : data) (cap : Z) (r : list Z) (offset : Z) (i : Z) (s : Z * obuf) : res (Z * obuf) :=
+Definition b64e_char (d : data) (cap : Z) (r : list Z) (offset : Z) (i curr : Z) (s : Z * obuf) : res (Z * obuf) :=
   let '(count, o) := s in
-  do curr <- rdo 949 r i;
   let ph := count mod 3 in
   do last <- (if ph =? 0 then Ok 0 else get_last 959 d r offset i);
   do o <-
@@ -533,6 +542,9 @@ Definition b64e_body (d : data) (cap : Z) (r : list Z) (offset : Z) (i : Z) (s :
        do o <- tput 974 base64_encode_table cap o (Z.land (Z.lor (Z.shiftl last 2) (Z.shiftr curr 6)) 63);
        tput 975 base64_encode_table cap o (Z.land curr 63));
   Ok (u64 (count + 1), o).
+
+Definition b64e_body (d : data) (cap : Z) (r : list Z) (offset : Z) (i : Z) (s : Z * obuf) : res (Z * obuf) :=
+  do curr <- rdo 949 r i; b64e_char d cap r offset i curr s.
 
 Definition b64e_region (d : data) (total cap : Z) (st : Z * obuf) (offset : Z) (r : list Z) : res (Z * obuf) :=
   let size := Zlength r in
@@ -556,7 +568,7 @@ Definition to_base64 (d : data) : res data :=
   if SIZE_MAX / 4 <? dest_size then Null
   else
     let dest_size := dest_size * 4 in
-    do '(_, (n, out)) <- apply_regions (b64e_region d total dest_size) d 0 (0, (0, []));
+    do '(cnt, (n, out)) <- apply_regions (b64e_region d total dest_size) d 0 (0, (0, []));
     if n =? dest_size then Ok (data_create (rev out)) else OOB 1004.
 
 (* ---------------------------------------------------------------- dispatch_data_create_with_transform (1011-1133) *)
